@@ -1,15 +1,273 @@
 #!/usr/bin/env python3
-"""Translator: /repo sources -> lean/Hcl/Generated.lean (regenerated on every run)."""
-import os, sys
+"""Translator: /repo sources -> lean/Hcl/Generated.lean (regenerated on every run).
+
+Strict recognisers for the table-like parts of the code.  When a recogniser does not match, the entry
+is emitted as the distinguished string "UNRECOGNISED: <text>", which keeps the file compiling but makes
+the tie theorems (Hcl/Tie/*.lean, proved by `decide`) fail.
+"""
+import os
+import re
+import sys
+
 VERIF = os.path.dirname(os.path.dirname(os.path.abspath(__file__)))
 REPO = os.environ.get("VERIF_REPO", "/repo")
 
+
+def read(p):
+    return open(os.path.join(REPO, p), encoding="utf-8").read()
+
+
+def norm(s):
+    return re.sub(r"\s+", " ", s).strip()
+
+
+def lstr(s):
+    return '"' + s.replace("\\", "\\\\").replace('"', '\\"').replace("\n", "\\n") + '"'
+
+
+def llist(items):
+    return "[" + ", ".join(items) + "]"
+
+
+def strip_comments(src):
+    src = re.sub(r"//[^\n]*", "", src)
+    return re.sub(r"/\*.*?\*/", "", src, flags=re.S)
+
+
+def fn_body(src, header):
+    """text between the braces of the item starting with `header`"""
+    i = src.find(header)
+    if i < 0:
+        return None
+    j = src.find("{", i)
+    depth = 0
+    k = j
+    while k < len(src):
+        if src[k] == "{":
+            depth += 1
+        elif src[k] == "}":
+            depth -= 1
+            if depth == 0:
+                return src[j + 1:k]
+        k += 1
+    return None
+
+
+def split_arms(body):
+    """split a match body into `pattern => expr` arms at top-level commas"""
+    arms = []
+    depth = 0
+    cur = ""
+    for ch in body:
+        if ch in "({[":
+            depth += 1
+        elif ch in ")}]":
+            depth -= 1
+        if ch == "," and depth == 0:
+            if cur.strip():
+                arms.append(cur)
+            cur = ""
+        else:
+            cur += ch
+    if cur.strip():
+        arms.append(cur)
+    out = []
+    for a in arms:
+        if "=>" in a:
+            p, e = a.split("=>", 1)
+            out.append((norm(p), norm(e)))
+    return out
+
+
+def match_body(fbody):
+    i = fbody.find("match self")
+    if i < 0:
+        i = fbody.find("match ")
+    j = fbody.find("{", i)
+    depth = 0
+    k = j
+    while k < len(fbody):
+        if fbody[k] == "{":
+            depth += 1
+        elif fbody[k] == "}":
+            depth -= 1
+            if depth == 0:
+                return fbody[j + 1:k]
+        k += 1
+    return ""
+
+
+def extract_ast(out):
+    src = strip_comments(read("src/ast.rs"))
+    # strictness constants
+    consts = re.findall(r"const\s+(\w+)\s*:\s*bool\s*=\s*cfg!\(feature\s*=\s*\"([^\"]+)\"\)\s*;", src)
+    out.append("def strictnessConsts : List (String × String) := " + llist("(%s, %s)" % (lstr(a), lstr(b)) for a, b in consts))
+    # kind table
+    body = fn_body(src, "fn kind(self)")
+    arms = split_arms(match_body(body)) if body else []
+    out.append("def binopKind : List (String × String) := " + llist(
+        "(%s, %s)" % (lstr(p.replace("BinOpCode::", "")), lstr(e.replace("BinOpKind::", ""))) for p, e in arms))
+    # apply_raw
+    body = fn_body(src, "fn apply_raw(self")
+    arms = split_arms(match_body(body)) if body else []
+    out.append("def applyRawArms : List (String × String) := " + llist(
+        "(%s, %s)" % (lstr(p.replace("BinOpCode::", "")), lstr(e)) for p, e in arms))
+    # BinOpCode::apply: the text of the whole function (it is short and every token matters)
+    body = fn_body(src, "fn apply(self, left: WireValue, right: WireValue)")
+    out.append("def binopApplyText : String := " + lstr(norm(body or "UNRECOGNISED")))
+    # unop apply
+    i = src.find("impl UnOpCode")
+    body = fn_body(src[i:], "fn apply(self, value: WireValue)") if i >= 0 else None
+    out.append("def unopApplyText : String := " + lstr(norm(body or "UNRECOGNISED")))
+    # mask, combine, max
+    for name, hdr in (("maskText", "pub fn mask(self)"), ("combineText", "pub fn combine(self, other: WireWidth)"),
+                      ("maxText", "pub fn max(self, other: WireWidth)")):
+        out.append("def %s : String := %s" % (name, lstr(norm(fn_body(src, hdr) or "UNRECOGNISED"))))
+
+
+def extract_cargo(out):
+    src = read("Cargo.toml")
+    m = re.search(r"^default\s*=\s*\[([^\]]*)\]", src, flags=re.M)
+    feats = re.findall(r'"([^"]+)"', m.group(1)) if m else ["UNRECOGNISED"]
+    out.append("def defaultFeatures : List String := " + llist(lstr(f) for f in feats))
+
+
+def extract_program(out):
+    raw = read("src/program.rs")
+    src = strip_comments(raw)
+    m = re.search(r'pub const Y86_PREAMBLE: &\'static str = "(.*?)";', raw, flags=re.S)
+    pre = m.group(1) if m else "UNRECOGNISED"
+    out.append("def preamble : String := " + lstr(pre))
+    # constants of the preamble: name = literal / name
+    pre_nc = re.sub(r"#[^\n]*", "", pre)
+    consts = re.findall(r"(\w+)\s*=\s*([0-9A-Za-z_]+)\s*[,;]", pre_nc)
+    out.append("def preambleConsts : List (String × String) := " + llist("(%s, %s)" % (lstr(a), lstr(b)) for a, b in consts))
+    # fixed functions
+    body = fn_body(src, "pub fn y86_fixed_functions()")
+    ffs = []
+    if body:
+        # expand the read_port / write_port helpers
+        def expand(m):
+            kind, a, b = m.group(1), m.group(2), m.group(3)
+            if kind == "read_port":
+                return ('FF{ name: "register file read port with %s", in: [("%s", 4)], out: ("%s", 64), action: ReadProgramRegister(%s,%s), '
+                        'enable: None, mandatory: false }') % (a, a, b, a, b)
+            return ('FF{ name: "register file write port with %s", in: [("%s", 4), ("%s", 64)], out: None, action: WriteProgramRegister(%s,%s), '
+                    'enable: None, mandatory: false }') % (a, a, b, a, b)
+        for m in re.finditer(r"FixedFunction::(read_port|write_port)\(\"(\w+)\",\s*\"(\w+)\"\)|FixedFunction\s*\{", body):
+            if m.group(1):
+                kind, a, b = m.group(1), m.group(2), m.group(3)
+                if kind == "read_port":
+                    ffs.append(("in:%s:4" % a, "out:%s:64" % b, "readreg", "-", "false"))
+                else:
+                    ffs.append(("in:%s:4,%s:64" % (a, b), "out:-", "writereg", "-", "false"))
+            else:
+                # a literal FixedFunction { ... }
+                j = m.end() - 1
+                depth = 0
+                k = j
+                while k < len(body):
+                    if body[k] == "{":
+                        depth += 1
+                    elif body[k] == "}":
+                        depth -= 1
+                        if depth == 0:
+                            break
+                    k += 1
+                item = body[j:k + 1]
+                ins = re.findall(r'WireDecl::synthetic\("(\w+)",\s*(\d+)\)', item.split("out_wire")[0])
+                om = re.search(r'out_wire:\s*(None|Some\(WireDecl::synthetic\("(\w+)",\s*(\d+)\)\))', item)
+                outw = "-" if (not om or om.group(1) == "None") else "%s:%s" % (om.group(2), om.group(3))
+                am = re.search(r"action:\s*Action::(\w+)", item)
+                act = {"SetStatus": "setstatus", "ReadMemory": "readmem", "WriteMemory": "writemem"}.get(am.group(1) if am else "", "UNRECOGNISED")
+                if act == "readmem" and re.search(r"is_instruction:\s*true", item):
+                    act = "readimem"
+                em = re.search(r'disabled_if_false:\s*(None|Some\(String::from\("(\w+)"\)\))', item)
+                en = "-" if (not em or em.group(1) == "None") else em.group(2)
+                mm = re.search(r"mandatory:\s*(true|false)", item)
+                ffs.append(("in:" + ",".join("%s:%s" % x for x in ins), "out:" + outw, act, en, mm.group(1) if mm else "UNRECOGNISED"))
+    out.append("def fixedFunctions : List (String × String × String × String × String) := " + llist(
+        "(%s, %s, %s, %s, %s)" % tuple(lstr(x) for x in f) for f in ffs))
+    m = re.search(r"const Y86_STATUSES: \[&'static str; \d+\] = \[(.*?)\];", src, flags=re.S)
+    sts = re.findall(r'"([^"]*)"', m.group(1)) if m else ["UNRECOGNISED"]
+    out.append("def statuses : List String := " + llist(lstr(s) for s in sts))
+    m = re.search(r"let order = \[([^\]]*)\];", src)
+    order = re.findall(r"'(.)'", m.group(1)) if m else []
+    out.append("def bankOrder : List Char := " + llist("'%s'" % c for c in order))
+    m = re.search(r"timeout:\s*(\d+),", fn_body(src, "fn default() -> RunOptions") or "")
+    out.append("def defaultTimeout : Nat := " + (m.group(1) if m else "0"))
+    # done(): the exact condition text
+    out.append("def doneText : String := " + lstr(norm(fn_body(src, "pub fn done(&self)") or "UNRECOGNISED")))
+    out.append("def processBanksText : String := " + lstr(norm(fn_body(src, "fn process_register_banks(&self") or "UNRECOGNISED")))
+    out.append("def memoryReadText : String := " + lstr(norm(fn_body(src, "pub fn read(&self, address: u64, bytes: u8)") or "UNRECOGNISED")))
+    out.append("def memoryWriteText : String := " + lstr(norm(fn_body(src, "pub fn write(&mut self, address: u64, value: u128, bytes: u8)") or "UNRECOGNISED")))
+
+
+def extract_disasm(out):
+    src = strip_comments(read("src/y86_disasm.rs"))
+    m = re.search(r"const Y86_REGISTERS: \[&'static str; \d+\] = \[(.*?)\];", src, flags=re.S)
+    out.append("def disasmRegisters : List String := " + llist(lstr(s) for s in (re.findall(r'"([^"]*)"', m.group(1)) if m else ["UNRECOGNISED"])))
+    m = re.search(r"const Y86_IFUNS: \[&'static str; \d+\] = \[(.*?)\];", src, flags=re.S)
+    out.append("def disasmIfuns : List String := " + llist(lstr(s) for s in (re.findall(r'"([^"]*)"', m.group(1)) if m else ["UNRECOGNISED"])))
+    out.append("def disasmText : String := " + lstr(norm(fn_body(src, "pub fn disassemble<W: Write>") or "UNRECOGNISED")))
+
+
+def extract_lexer(out):
+    src = re.sub(r"//[^\n]*", "", read("src/lexer.rs"))    # block comments are not stripped: "/*" occurs in string literals here
+    kws = re.findall(r'"(\w+)"\s*=>\s*Tok::(\w+)', fn_body(src, "fn resolve_identifier") or "")
+    out.append("def keywords : List (String × String) := " + llist("(%s, %s)" % (lstr(a), lstr(b)) for a, b in kws))
+    nb = fn_body(src, "fn next(&mut self)") or ""
+    simple = re.findall(r"'(.)'\s*=>\s*simple_token\(i,\s*Tok::(\w+)\)", nb)
+    out.append("def simpleTokens : List (Char × String) := " + llist("('%s', %s)" % (c, lstr(t)) for c, t in simple))
+    choose = re.findall(r"'(.)'\s*=>\s*self\.choose_token\(i,\s*Tok::(\w+),\s*&\[(.*?)\]\)", nb)
+    items = []
+    for c, dflt, opts in choose:
+        pairs = re.findall(r"\('(.)',\s*Tok::(\w+)\)", opts)
+        items.append("('%s', %s, %s)" % (c, lstr(dflt), llist("('%s', %s)" % (a, lstr(b)) for a, b in pairs)))
+    out.append("def chooseTokens : List (Char × String × List (Char × String)) := " + llist(items))
+    out.append("def handleConstantText : String := " + lstr(norm(fn_body(src, "fn handle_constant(&mut self, i: usize)") or "UNRECOGNISED")))
+
+
+def extract_grammar(out):
+    src = read("src/parser.lalrpop")
+    src = re.sub(r"//[^\n]*", "", src)
+    tiers = re.findall(r"^(Expr\w+)\s*=\s*(BinTier|BinTierNonAssoc)<(\w+),\s*(\w+)>;", src, flags=re.M)
+    out.append("def grammarTiers : List (String × String × String × String) := " + llist(
+        "(%s, %s, %s, %s)" % tuple(lstr(x) for x in t) for t in tiers))
+    ops = []
+    for m in re.finditer(r"^(BinOp\w+|UnOp)\s*:\s*\w+\s*=\s*\{(.*?)\};", src, flags=re.M | re.S):
+        for tok, code in re.findall(r'"([^"]+)"\s*=>\s*(?:BinOpCode|UnOpCode)::(\w+)', m.group(2)):
+            ops.append((m.group(1), tok, code))
+    out.append("def grammarOps : List (String × String × String) := " + llist("(%s, %s, %s)" % tuple(lstr(x) for x in o) for o in ops))
+    m = re.search(r"^ExprIn\s*:\s*SpannedExpr\s*=\s*\{(.*?)^\};", src, flags=re.M | re.S)
+    inner = re.findall(r"<e:(\w+)>", m.group(1)) if m else []
+    out.append("def grammarInOperand : List String := " + llist(lstr(x) for x in sorted(set(inner))))
+    bounds = re.findall(r"if constant\.bits <= (\d+)", src)
+    out.append("def grammarBounds : List Nat := " + llist(bounds))
+
+
+def extract_main(out):
+    src = strip_comments(read("src/main.rs"))
+    opts = re.findall(r'opts\.optflag\("(\w*)",\s*"([\w-]+)"', src)
+    out.append("def cliOptions : List (String × String) := " + llist("(%s, %s)" % (lstr(a), lstr(b)) for a, b in opts))
+    m = re.search(r"\}\s*else\s*\{\s*(\d+)\s*\};\s*run_options\.set_timeout", src)
+    out.append("def cliDefaultTimeout : Nat := " + (m.group(1) if m else "0"))
+    out.append("def cliYoSuffix : List String := " + llist(lstr(x) for x in re.findall(r'ends_with\("([^"]+)"\)', src)))
+
+
 def main():
-    parts = ["/-! GENERATED by tools/extract.py from /repo on every run.  Do not edit. -/", "namespace Generated", "end Generated", ""]
-    text = "\n".join(parts)
+    out = []
+    for f in (extract_ast, extract_cargo, extract_program, extract_disasm, extract_lexer, extract_grammar, extract_main):
+        try:
+            f(out)
+        except Exception as e:  # a recogniser that crashes marks its table unrecognised
+            out.append("def unrecognised_%s : String := %s" % (f.__name__, lstr("UNRECOGNISED: %r" % (e,))))
+    text = "/-! GENERATED by tools/extract.py from /repo on every run.  Do not edit. -/\nnamespace Generated\n\n" + \
+        "\n\n".join(out) + "\n\nend Generated\n"
     path = os.path.join(VERIF, "lean", "Hcl", "Generated.lean")
-    old = open(path).read() if os.path.exists(path) else None
+    old = open(path, encoding="utf-8").read() if os.path.exists(path) else None
     if old != text:
-        open(path, "w").write(text)
+        open(path, "w", encoding="utf-8").write(text)
+
 
 main()
